@@ -116,7 +116,9 @@ func (enc *VP8Encoder) encodeFrame() {
 func (enc *VP8Encoder) refreshProbas() {
 	var stats ProbaStats
 	enc.collectAllStats(&stats)
-	optimizeProba(&stats, &enc.proba)
+	if optimizeProba(&stats, &enc.proba) > 0 {
+		enc.probaRefreshed = true
+	}
 }
 
 // pickBestMode selects the best intra prediction mode for the macroblock.
